@@ -58,6 +58,8 @@ def setup(rep, tier):
     rep.minimum('R18.1f', 2)
     rep.minimum('R18.1g', 4)
     rep.minimum('R18.3', 30)
+    rep.minimum('R18.5', 1)
+    rep.minimum('R18.6', 1)
 
 
 def within(v, lo, hi):
@@ -153,7 +155,7 @@ def r18_1b(rep, prog):
         lids = [l['id'] for l in f.locals.values() if l['name'] == 'i']
         hit = None
         for b, i, s_ in anL.cf.positions():
-            if sx.kind(s_) == 'assign' and sx.kind(s_[1]) == 'local' and any(_nd(x, D, lambda q: sx.key(q) == ('param', L)) for x in sx.walk(s_[2])) \
+            if sx.kind(s_) == 'assign' and sx.kind(s_[1]) == 'local' and any(_nd(x, D, lambda q: True) for x in sx.walk(s_[2])) \
                     and any(sx.int_val(x) == 32768 for x in sx.walk(s_[2])) and not any(m[0] == 'call' for m in sx.walk(s_[2])):
                 st_ = anL.state_at(b, i)
                 hit = (b, i, s_, st_)
@@ -164,6 +166,16 @@ def r18_1b(rep, prog):
             break
         iv = hit[3].get(('local', lids[0]))
         where = '%s:%s' % (f.file, sx.line(hit[2]))
+        # the last coefficient is measured against the LAST entry of the spacing table (index L: the distance to 1.0)
+        for x in sx.walk(hit[2][2]):
+            if _nd(x, D, lambda q: True):
+                dv = anL.ev(sx.strip(x)[2], hit[3])
+                inst2 = '%s:silk_NLSF_stabilize measures the last coefficient against the last spacing entry (order %d)' % (prog.config, Lval)
+                if dv and absint.lo(dv) == absint.hi(dv) == Lval:
+                    rep.holds('R18.1b', inst2, where, 'index %s = %d' % (sx.show(sx.strip(x)[2]), Lval))
+                else:
+                    rep.violated('R18.1b', inst2, where, 'the upper guard band is taken from NDeltaMin[%s] = entry %s instead of entry %d: vectors whose top coefficient sits inside the guard band are declared stable' % (
+                        sx.show(sx.strip(x)[2]), absint.show(dv) if dv else '?', Lval), key='stabilize-last-entry')
         # first index examined by the loop
         ds, defs = cfgm.defs_at(anL.cf, lids[0], hit[0], hit[1])
         if iv is not None and absint.lo(iv) == absint.hi(iv) == Lval:
@@ -721,7 +733,44 @@ def r18_3(rep, prog):
             chk(max(abs(x) for x in vals) <= 64, 'contour offsets of %s are small (no overflow before the clamp)' % cbn, prog.glob(cbn)['loc'], 'max |offset| %d' % max(abs(x) for x in vals), 'contour-mag:' + cbn)
 
 
+# ------------------------------------------------------------------ R18.6
+def r18_6(rep, prog):
+    """bounded prediction gain: the inverse-gain routine hands back its running inverse gain only when the last
+    update of it was followed by the `below 1/MAX_PREDICTION_POWER_GAIN -> return 0` test: at every return of
+    that local a lower bound  LIMIT <= invGain  with LIMIT > 0 holds and has not been invalidated since."""
+    n = 0
+    for f in prog.functions_all:
+        if not f.file.endswith('LPC_inv_pred_gain.c'):
+            continue
+        cf = cfgm.CFG(f)
+        rets = [(b, i, s_) for b, i, s_ in T.returns_of(cf) if len(s_) > 1 and sx.kind(sx.strip(s_[1])) == 'local']
+        if not rets:
+            continue
+        rep.functions.add(f.name)
+        for b, i, s_ in rets:
+            loc = sx.strip(s_[1])
+            # only running values: the local is re-assigned from itself somewhere
+            if not any(x[0] == 'assign' and sx.key(sx.strip(x[1])) == sx.key(loc) and any(sx.key(y) == sx.key(loc) for y in sx.walk(x[2])) for x in f.all_nodes()):
+                continue
+            n += 1
+            facts = T.stable_facts(cf, b, i)
+            lows = [a for a in facts if a[0] in ('<=', '<') and isinstance(a[1], tuple) and a[1][0] == 'int' and a[1][1] > 0 and a[2] == sx.key(loc)]
+            inst = '%s:%s returns `%s` only after the bounded-gain test' % (prog.config, f.name, loc[1])
+            where = '%s:%s' % (f.file, sx.line(s_))
+            if lows:
+                rep.holds('R18.6', inst, where, 'lower bound %s holds at the return' % T.show_atom(lows[0]))
+            else:
+                rep.violated('R18.6', inst, where, 'no test `%s < limit -> return 0` separates the last update of `%s` from this return: filters with a prediction gain above the limit are reported stable (facts here: %s)' % (
+                    loc[1], loc[1], [T.show_atom(a) for a in facts][:3]), key=f.name + ':gain-limit')
+    return n
+
+
 def check(rep, prog, tier):
+    r18_6(rep, prog)
+    from . import stalehoist
+    n5 = stalehoist.check(rep, 'R18.5', prog, lambda f: f.file.startswith('silk/') and '/x86/' not in f.file and any(t in f.file for t in ('gain_quant', 'decode_', 'NLSF_', 'dec_API', 'stereo_decode', 'NLSF2A', 'LPC_fit', 'bwexpander')), 'SILK dequantisers')
+    if n5 < 6:
+        rep.unresolved('R18.5', 'only %d loops examined' % n5)
     r18_1a(rep, prog)
     r18_1b(rep, prog)
     r18_1c(rep, prog)
